@@ -18,8 +18,13 @@ def run(ctx):
     ctx.tlc('ProxyServer', 'MC_PS_c10_quick.cfg', label='PanicConfined (liveness under fairness)', timeout=1800)
     trace, report = lc.record(ctx)
     accepted, rejected, lines = lc.validate(ctx, trace)
+    for sc in report:
+        if sc['family'] == 'iofault':
+            for n in sc.get('notes') or []:
+                if n.startswith('control'):
+                    ctx.violation({'check': 'C10', 'kind': 'stopped_serving_after_io_fault'}, 'scenario %s: %s' % (sc['name'], n), sc)
     for r in rejected:
-        if r['family'] == 'mix':
+        if r['family'] in ('mix', 'iofault', 'leave'):
             ctx.violation({'check': 'C10', 'kind': 'trace_rejected', 'family': r['family']},
                           'scenario %s: %s; first unexplained event %s' % (r['scenario'], r['invariant'] or 'not a behaviour of ProxyServer.tla', r['event']), r)
     npanic = 0
@@ -47,11 +52,11 @@ def run(ctx):
     for k in abuse.get('killers') or []:
         ctx.violation({'check': 'C10', 'kind': 'process_died_or_stopped_serving', 'frame_type': k['frame_type']},
                       'one HTTP/2 connection sending a %s frame (%d bytes, %s, open header block on %s): %s' % (k['frame_type'], k['len'], k['mode'], k['open_header_block_on'], k['effect']), k)
-    cov = {'traces_validated_against_impl': len([a for a in accepted if a.startswith('mix')]) + npanic + abuse['connections'],
+    cov = {'traces_validated_against_impl': len([a for a in accepted if a.split('-')[0] in ('mix', 'iofault', 'leave')]) + npanic + abuse['connections'],
            'h2_frame_abuse': {k: abuse[k] for k in ('vectors_in_graph', 'connections', 'by_type', 'strata', 'outcomes', 'control_rounds')},
            'samples': [{'panic_scenario': {k: v for k, v in s.items() if k != 'child_stderr_head'}} for s in report if s['family'] == 'panic'][:2] + [{'trace_prefix': lc.sample_trace(lines, 10)}],
            'panic_callbacks': [s['point'] for s in report if s['family'] == 'panic'],
-           'abuse_scenarios': [s['name'] for s in report if s['family'] == 'mix'],
+           'abuse_scenarios': [s['name'] for s in report if s['family'] in ('mix', 'iofault', 'leave')],
            'rule': 'fault enumeration over user callbacks x protocols in a child process; abusive client scripts in-process with trace validation; H2Frame.tla frame space against a child process (quick: sample covering every frame type, thorough: all)'}
     return ctx.finish(cov, assumptions=['handler and header-injector panics are recovered by net/http and the HTTP/2 server themselves (per request)',
-                                        'I/O error injection at every operation index is not built yet; client-side aborts at random byte offsets stand in for it'])
+                                        'server-side I/O errors are injected at the k-th Read / k-th Write of the accepted connection (k = 1..10 quick, 1..40 thorough) on every connection kind; errors of the backend connection are not injected'])
